@@ -12,12 +12,228 @@ What is decided here (LLSYM, shared drivers of C17/C03/C11/C07):
 Thread interleavings, the curve-registry lock and first-use races are NOT reachable with these engines.
 """
 from props import c17, c03, c11, c07
+from vlib.env import Harness
+from vlib.llsym import kern
 
-HARNESSES = c17.HARNESSES
+
+# ---- Python level: copy() continues independently (CMAC keeps its partial block in Python)
+
+def _mk(env, kind, key):
+    if kind.startswith('cmac'):
+        from Crypto.Hash import CMAC
+        from Crypto.Cipher import AES, DES3
+        return lambda: CMAC.new(key, ciphermod=AES if kind == 'cmac_aes' else DES3)
+    if kind == 'hmac':
+        from Crypto.Hash import HMAC, SHA256
+        return lambda: HMAC.new(key, digestmod=SHA256)
+    if kind == 'hmac_sha1':
+        from Crypto.Hash import HMAC, SHA1
+        return lambda: HMAC.new(key, digestmod=SHA1)
+    import importlib
+    mod = importlib.import_module('Crypto.Hash.' + kind)
+    if kind.startswith('BLAKE2'):
+        return lambda: mod.new(digest_bytes=32, key=key)
+    return lambda: mod.new()
+
+
+def run_copy_indep(env, sh):
+    kind = sh['kind']
+    P = env.P
+    key = env.bytes('key', 16)
+    if kind == 'cmac_des3':
+        # a symbolic 3DES key may degenerate to single DES (refused by the library): fixed two-key 3DES key
+        key = bytes.fromhex("0123456789abcdef23456789abcdef01")
+    mk = _mk(env, kind, key)
+    a, b1, b2 = env.bytes('a', sh['a']), env.bytes('b1', sh['b1']), env.bytes('b2', sh['b2'])
+    h = mk()
+    h.update(a)
+    c = h.copy()
+    for who in sh['order']:
+        if who == 'h':
+            h.update(b1)
+        elif who == 'c':
+            c.update(b2)
+        elif who == 'H':            # a digest in between must not disturb either object
+            h.digest() if not kind.startswith('BLAKE2') else None
+        elif who == 'x':            # a second-generation copy, then the intermediate object goes away
+            c2 = c.copy()
+            del c
+            c = c2
+    r1 = mk()
+    r1.update(P.concat(a, b1) if 'h' in sh['order'] else a)
+    r2 = mk()
+    r2.update(P.concat(a, b2) if 'c' in sh['order'] else a)
+    dh, dc = h.digest(), c.digest()
+    env.check(dh == r1.digest(), 'original after copy(): digest == digest of its own message only')
+    env.check(dc == r2.digest(), 'clone: digest == digest of its own message only')
+
+
+# ---- C level: hash modules outside the C03 table (MD2, MD4, BLAKE2b, BLAKE2s): frame condition and copy
+
+HF = dict(MD2=dict(cfile='MD2.c', pfx='md2', dig=16, concrete_data=True), MD4=dict(cfile='MD4.c', pfx='md4', dig=16),
+          BLAKE2b=dict(cfile='blake2b.c', pfx='blake2b', dig=64, blake=True), BLAKE2s=dict(cfile='blake2s.c', pfx='blake2s', dig=32, blake=True))
+
+
+def run_hash_frame(env, sh):
+    """init / update / copy / digest of two live objects: among caller-visible memory only the objects' own
+    state and the digest buffers are written (no module global: no writable static), digest() does not
+    change the state (repeatable), and the two objects do not influence each other"""
+    d = HF[sh['hash']]
+    K = kern.kernel(env, d['cfile'])
+    pfx = d['pfx']
+
+    def new(tag):
+        slot = K.ptr_slot()
+        if d.get('blake'):
+            r = K.call(pfx + '_init', slot, K.buf(env.bytes('key' + tag, 4), False, 'key' + tag), 4, d['dig'])
+        else:
+            r = K.call(pfx + '_init', slot)
+        env.check(r == 0, 'init succeeds')
+        return K.deref(slot)
+    if d.get('concrete_data'):
+        # MD2: every byte indexes the S-box 18 times per block; with symbolic data each lookup is a 256-way
+        # ite (measured: > 240 s per block).  The frame condition does not depend on the byte values (the
+        # control flow is data-independent), so the data is concrete here -- stated
+        m1, m2 = bytes(range(7, 7 + sh['n1'])), bytes(range(100, 100 + sh['n2']))
+    else:
+        m1, m2 = env.bytes('m1', sh['n1']), env.bytes('m2', sh['n2'])
+    h1 = new('1')
+    K.reset_written()
+    env.check(K.call(pfx + '_update', h1, K.buf(m1, False, 'm1'), len(m1)) == 0, 'update succeeds')
+    o_alone = K.out(d['dig'], 'digest_alone')
+    env.check(K.call(pfx + '_digest', h1, o_alone) == 0, 'digest succeeds')
+    alone = K.read(o_alone, d['dig'])
+    # a second object is created, fed, copied and destroyed in between
+    h2 = new('2')
+    env.check(K.call(pfx + '_update', h2, K.buf(m2, False, 'm2'), len(m2)) == 0, 'update succeeds')
+    h3 = new('3')
+    env.check(K.call(pfx + '_copy', h2, h3) == 0, 'copy succeeds')
+    o2 = K.out(d['dig'], 'digest2')
+    K.call(pfx + '_digest', h2, o2)
+    K.call(pfx + '_destroy', h2)
+    o3 = K.out(d['dig'], 'digest3')
+    K.call(pfx + '_digest', h3, o3)
+    env.check(K.read(o3, d['dig']) == K.read(o2, d['dig']), 'the clone yields the digest of the original, also after the original is destroyed')
+    o_again = K.out(d['dig'], 'digest_again')
+    env.check(K.call(pfx + '_digest', h1, o_again) == 0, 'digest succeeds')
+    env.check(K.read(o_again, d['dig']) == alone, 'digest() is repeatable and unaffected by the life of other objects')
+    K.check_frame(('digest', 'pResult', 'slot'), 'only object state and digest buffers are written: inputs and ALL module globals untouched (no writable static)')
+    K.call(pfx + '_destroy', h1)
+    K.call(pfx + '_destroy', h3)
+    K.check_memory_safe()
+    env.check(K.live_heap() == [], 'every state is released')
+
+
+# ---- C level: EC point operations do not write the shared curve context or the other operand
+
+def run_ec_frame(env, sh):
+    """ec_ws_add / ec_ws_double / ec_ws_neg / ec_ws_scalar / ec_ws_cmp / ec_ws_get_xy on a generic-modulus curve:
+    the EcContext (shared by every point of the curve and by all threads) and the second operand are
+    never written; everything allocated by the call is released again.  Concrete coordinates (the control
+    flow of these functions is data-independent up to the scalar bits; wide symbolic products are out of
+    reach and irrelevant to a frame condition) -- stated."""
+    from vlib.models import ecref
+    from Crypto.PublicKey import ECC
+    K = kern.kernel(env, 'ec_ws.c+mont.c')
+    if env.sym:
+        K.m.step_budget = 50000000          # concrete data: a whole scalar multiplication is a few million IR steps
+    name = sh['curve']
+    c = ECC._curves[name]
+    n = (int(c.p).bit_length() + 7) // 8
+    cur = ecref.Curve('ws', name, int(c.p), n, b=int(c.b), order=int(c.order))
+    G = (int(c.Gx), int(c.Gy))
+    Q = ecref.generic_smul(lambda A, B: ecref.ws_add(cur, A, B), (0, 0), 5, G)
+    slot = K.ptr_slot()
+    r = K.call('ec_ws_new_context', slot, K.buf(int(c.p).to_bytes(n, 'big'), False, 'p'), K.buf(int(c.b).to_bytes(n, 'big'), False, 'b'),
+               K.buf(int(c.order).to_bytes(n, 'big'), False, 'order'), n, 0x1122334455667788)
+    env.check(r == 0, 'context created')
+    ctx = K.deref(slot)
+    ctx_ids = K.heap_ids()
+
+    def point(P, tag):
+        before = K.heap_ids()
+        sl = K.ptr_slot()
+        rr = K.call('ec_ws_new_point', sl, K.buf(P[0].to_bytes(n, 'big'), False, 'x' + tag), K.buf(P[1].to_bytes(n, 'big'), False, 'y' + tag), n, ctx)
+        env.check(rr == 0, 'point created')
+        return K.deref(sl), K.heap_ids() - before
+    A, a_ids = point(G, 'A')
+    B, b_ids = point(Q, 'B')
+    live0 = K.heap_ids()
+    add = lambda X, Y: ecref.ws_add(cur, X, Y)
+    val = G                                   # value of A according to the textbook formulas
+    for op in sh['ops']:
+        K.reset_written()
+        if op == 'add':
+            val = add(val, Q)
+        elif op == 'double':
+            val = add(val, val)
+        elif op == 'neg':
+            val = (val[0], (-val[1]) % cur.p) if val != (0, 0) else val
+        elif op == 'scalar':
+            val = ecref.generic_smul(add, (0, 0), 0x0135, val)
+        if op == 'add':
+            r = K.call('ec_ws_add', A, B)
+        elif op == 'double':
+            r = K.call('ec_ws_double', A)
+        elif op == 'neg':
+            r = K.call('ec_ws_neg', A)
+        elif op == 'cmp':
+            r = K.call('ec_ws_cmp', A, B)
+            r = 0
+        elif op == 'get_xy':
+            r = K.call('ec_ws_get_xy', K.out(n, 'outx'), K.out(n, 'outy'), n, A)
+        elif op == 'scalar':
+            r = K.call('ec_ws_scalar', A, K.buf(bytes([0x01, 0x35]), False, 'k'), 2, 0x0123456789ABCDEF)
+        else:
+            raise KeyError(op)
+        env.check(r == 0, '%s succeeds' % op)
+        w = K.heap_written(ctx_ids)
+        env.check(not w, '%s does not write the shared curve context [written: %s]' % (op, ", ".join(w)))
+        w = K.heap_written(b_ids)
+        env.check(not w, '%s does not write its second operand [written: %s]' % (op, ", ".join(w)))
+        if op in ('cmp', 'get_xy'):
+            w = K.heap_written(a_ids)
+            env.check(not w, '%s does not write the point it reads [written: %s]' % (op, ", ".join(w)))
+        env.check(K.heap_ids() == live0, '%s releases everything it allocates' % op)
+        K.check_frame(('out', 'pResult', 'slot'), 'no caller buffer other than the outputs and no module global is written')
+    ox, oy = K.out(n, 'outx_final'), K.out(n, 'outy_final')
+    env.check(K.call('ec_ws_get_xy', ox, oy, n, A) == 0, 'get_xy succeeds')
+    P = env.P
+    env.check(P.b2i(K.read(ox, n)) == val[0] and P.b2i(K.read(oy, n)) == val[1], 'the point computed by the C code == textbook group law on the same operands')
+    K.check_memory_safe()
+
+
+OWN = dict(copy_indep=Harness('copy_indep', run_copy_indep), hash_frame=Harness('hash_frame', run_hash_frame, timeout_ms=120000),
+           ec_frame=Harness('ec_frame', run_ec_frame, budget_s=900))
+HARNESSES = dict(c17.HARNESSES)
+HARNESSES.update(OWN)
+
+
+def own_shapes(tier):
+    th = tier == 'thorough'
+    jobs = []
+    kinds = ('cmac_aes', 'cmac_des3', 'hmac', 'hmac_sha1', 'SHA256', 'SHA1', 'MD5', 'SHA3_256', 'SHA512', 'RIPEMD160')
+    for kind in kinds:
+        bs = 8 if kind == 'cmac_des3' else 16
+        for a in (0, 5, bs, bs + 5) if th else (5, bs):
+            for b1 in (0, bs - 5, bs - 4, 2 * bs - 5) if th else (bs - 5, 2 * bs - 5):
+                for b2 in (3, bs + 4):
+                    for order in ('hc', 'ch', 'hHc', 'cxh') if th else ('hc', 'cxh'):
+                        jobs.append(('copy_indep', dict(kind=kind, a=a, b1=b1, b2=b2, order=order)))
+    for hname in HF:
+        B = 16 if hname == 'MD2' else (128 if hname == 'BLAKE2b' else 64)
+        for n1, n2 in ((0, 1), (B - 1, B + 1), (B, 3)) if not th else ((0, 1), (B - 1, B + 1), (B, 3), (2 * B + 1, B), (1, 0)):
+            jobs.append(('hash_frame', dict(hash=hname, n1=n1, n2=n2)))
+    for curve in ('P-192', 'P-224', 'P-256', 'P-384', 'P-521') if th else ('P-192', 'P-256', 'P-521'):
+        jobs.append(('ec_frame', dict(curve=curve, ops=['add', 'double', 'neg', 'cmp', 'get_xy', 'add'])))
+        if th or curve == 'P-192':
+            jobs.append(('ec_frame', dict(curve=curve, ops=['scalar'])))
+    return jobs
 
 
 def shapes(tier):
-    jobs = [j for j in c17.own_shapes(tier) if j[1].get('alias', 'none') == 'none']
+    jobs = own_shapes(tier)
+    jobs += [j for j in c17.own_shapes(tier) if j[1].get('alias', 'none') == 'none']
     jobs += [j for j in c03.shapes(tier) if j[1].get('copy_at') is not None or j[1].get('copy')]
     jobs += [j for j in c03.shapes(tier) if j[0] == 'md' and len(j[1]['segs']) == 1][::3]
     jobs += [j for j in c11.shapes(tier) if j[0] == 'ctr_stream' and sum(j[1].get('calls', [0])) < 300][::2]
@@ -25,9 +241,13 @@ def shapes(tier):
     return jobs
 
 
-BOUNDS = dict(frame="every entry point of the C17 kernel list, non-aliased shapes", copy="SHA-2 family, SHA-1, MD5, RIPEMD-160, keccak: copy at any segment boundary",
-              outside=["actual thread interleavings (2..16 threads)", "the _Curves registry lock and first-use races", "C files outside the C17 kernel list",
-                       "Python-level argument immutability (being added)", "GIL release behaviour of cffi"])
+BOUNDS = dict(frame="every entry point of the C17 kernel list, non-aliased shapes; MD2/MD4/BLAKE2b/BLAKE2s init/update/copy/digest/destroy with two live objects; "
+              "ec_ws add/double/neg/cmp/get_xy/scalar on P-192/P-256/P-521 (thorough: all five NIST curves) with the shared EcContext and the second operand as read-only frame",
+              copy="C: SHA-2 family, SHA-1, MD5, RIPEMD-160, keccak, MD2, MD4, BLAKE2: copy at any segment boundary; Python: CMAC (AES, 3DES), HMAC, SHA-1/256/512, "
+              "MD5, SHA3-256, RIPEMD-160: update / copy / update of both in either order with lengths around the block size, second-generation copies",
+              outside=["actual thread interleavings (2..16 threads)", "the _Curves registry lock and first-use races (no engine here explores schedules)",
+                       "Ed25519/Ed448/Curve25519/Curve448 point functions, modexp", "Python-level argument immutability beyond the C09/C17 buffer checks",
+                       "GIL release behaviour of cffi", "EC frame checks use concrete coordinates (data-independent control flow); MD2 uses concrete message bytes"])
 ASSUMPTIONS = list(c17.ASSUMPTIONS)
 EXPLANATION = ("frame conditions and copy-independence of the real C (LLSYM): z3-backed symbolic execution shows that no entry point "
                "writes caller inputs or module globals for any byte contents, hence distinct objects cannot interfere; thread "
